@@ -1419,10 +1419,19 @@ static EntryTableDArray bufr_tabled_read (EntryTableDArray addr_tabled, const ch
 
       if ( tok[0] != '3') continue;
       count = 0;
-      while ( tok )
+      while ( tok && (count < 1024) )
          {
          descriptors[count++] = atoi(tok);
          tok = strtok( NULL, " \t\n" );
+         }
+      if (tok != NULL)
+         {
+         char errmsg[256];
+
+         sprintf( errmsg, _("Warning: Table D sequence %d has more than 1023 descriptors, skipped\n"), descriptors[0] );
+         bufr_print_debug( errmsg );
+         description[0] = 0;
+         continue;
          }
       if (count > 1)
          {
@@ -2880,6 +2889,7 @@ static EntryTableDArray bufr_csv_read_tabled (EntryTableDArray addr_tabled, cons
    char description2[sizeof(ligne)];
    int  desc, fxy1, fxy2;
    int  lineno;
+   int  toolong = 0;
 
    char          **csv_header, **csvcells;
    int           nbcell, csv_line_size;
@@ -2972,15 +2982,22 @@ static EntryTableDArray bufr_csv_read_tabled (EntryTableDArray addr_tabled, cons
       fxy2 = atoi( tok );
       if ( fxy1 == descriptors[0] )
          {
-         descriptors[count++] = fxy2;
+         if (count < 1024)
+            descriptors[count++] = fxy2;
+         else
+            toolong = 1; /* more than 1023 members: the sequence is dropped */
          }
       else if (count > 1)
          {
-         etb = bufr_new_EntryTableD( descriptors[0],
+         if (!toolong)
+            {
+            etb = bufr_new_EntryTableD( descriptors[0],
 				description,
 				strlen(description),
 				descriptors+1, count-1 );
-         arr_add( addr_tabled, (char *)&etb );
+            arr_add( addr_tabled, (char *)&etb );
+            }
+         toolong = 0;
          descriptors[0] = fxy1;
 	 count = 1;
          descriptors[count++] = fxy2;
@@ -2988,7 +3005,7 @@ static EntryTableDArray bufr_csv_read_tabled (EntryTableDArray addr_tabled, cons
          }
       }
 
-   if (count > 1)
+   if ((count > 1)&&(!toolong))
       {
       etb = bufr_new_EntryTableD( descriptors[0],
 				description,
